@@ -26,6 +26,7 @@ type HistConfig struct {
 	PConverge      float64
 	PGlobals       float64
 	PFailAfterEdit float64 // motif: edit, then a failing All run
+	PReal          float64 // a world for the real devpkg generators
 	PMute          float64 // a generator that now renders nothing for one package (with or without ErrIgnore)
 	PDepOutside    float64 // without All: select a package whose dependencies are not selected
 }
@@ -192,6 +193,12 @@ func (w *histWorld) injectFault(r *Rng, run *RunOp, kind string) {
 func DrawHistory(r *Rng, cfg HistConfig) (*Scenario, *histWorld) {
 	base := drawBase(r)
 	m, names, gens, _ := drawWorld(r, base)
+	if r.P(cfg.PReal) {
+		// the real devpkg generators: only the tree-level oracles (T1, T3, T4, S1-S5) apply to them
+		m, names = DrawRealModule(r, 1)
+		gens = RealGens(names)
+		cfg.PGenFault, cfg.PMute, cfg.PFailAfterEdit, cfg.PGlobals = 0, 0, 0, 0
+	}
 	w := &histWorld{m: m, names: names, gens: gens, base: base}
 	sc := &Scenario{Kind: "history", Module: m, Base: base}
 	var ops []Op
@@ -376,11 +383,11 @@ func SimC07(c *CheckCtx, i int, r *Rng) error {
 		return SimC08(c, i, r)
 	}
 	return runHistory(c, i, r, HistConfig{MinOps: 3, MaxOps: 7, PAll: 0.6, PForce: 0.3, PGlobals: 0.2, PSubsetGens: 0.5, PEdit: 0.15, PStale: 0.25,
-		PSumOps: 0.05, PBreak: 0.08, PGenFault: 0.12, PIOFault: 0.12, PKill: 0.1, PConverge: 0.2, PMute: 0.35, PDepOutside: 0.5})
+		PSumOps: 0.05, PBreak: 0.08, PGenFault: 0.12, PIOFault: 0.12, PKill: 0.1, PConverge: 0.2, PMute: 0.35, PDepOutside: 0.5, PReal: 0.1})
 }
 
 // SimC08: the gengo.sum cache against the reference model.
 func SimC08(c *CheckCtx, i int, r *Rng) error {
 	return runHistory(c, i, r, HistConfig{MinOps: 4, MaxOps: 9, PAll: 0.85, PForce: 0.15, PGlobals: 0.1, PSubsetGens: 0.2, PEdit: 0.3, PStale: 0.05,
-		PSumOps: 0.2, PUnhashable: 0.06, PBreak: 0.04, PGenFault: 0.1, PIOFault: 0.12, PKill: 0.08, PMidEdit: 0.1, PConverge: 0.6, PFailAfterEdit: 0.12, PMute: 0.1})
+		PSumOps: 0.2, PUnhashable: 0.06, PBreak: 0.04, PGenFault: 0.1, PIOFault: 0.12, PKill: 0.08, PMidEdit: 0.1, PConverge: 0.6, PFailAfterEdit: 0.12, PMute: 0.1, PReal: 0.08})
 }
